@@ -79,9 +79,36 @@ mutual
     | structLit (segs : List String) (fields : List (String × Expr)) (rest : Option Expr)
     /-- `e?` -/
     | try_ (e : Expr)
-    /-- `|params| body` (`move` dropped) -/
+    /-- `|params| body` (`move` and parameter type ascriptions dropped) -/
     | closure (params : List Pat) (body : Expr)
     | macro (name : String) (tokens : String)
+    /-- a macro invocation whose tokens parse as a comma-separated list of expressions
+        (`assert!(c)`, `assert_eq!(a, b)`, `vec![a, b]`, `syserror!("mmap")`); the raw token text is kept.
+        Conventions of the translator: for `assert!`/`debug_assert!` only the condition, for
+        `assert_eq!`/`assert_ne!` (and the `debug_` forms) only the two operands are kept (the rest is the
+        panic message); `matches!(e, P if g)` has the single argument `match e { P if g => true, _ => false }`
+        (its definition in std); `vec![x; n]` has the single argument `repeatE x n`. -/
+    | macroArgs (name : String) (tokens : String) (args : List Expr)
+    /-- `while cond { body }`; `cond` may be (or contain) a `letCond` -/
+    | whileE (cond : Expr) (body : List Stmt)
+    /-- `loop { body }` (unlabelled) -/
+    | loopE (body : List Stmt)
+    /-- `for pat in iter { body }` (unlabelled) -/
+    | forE (pat : Pat) (iter : Expr) (body : List Stmt)
+    /-- `lo..hi` / `lo..=hi` (inclusive = true); a missing end is `none` -/
+    | range (lo hi : Option Expr) (inclusive : Bool)
+    /-- `break` / `break e` (unlabelled; a labelled one is `other`) -/
+    | breakE (e : Option Expr)
+    /-- `continue` (unlabelled) -/
+    | continueE
+    /-- `let PAT = e` in the condition of `if` / `while` -/
+    | letCond (pat : Pat) (e : Expr)
+    /-- `e[i]` -/
+    | index (e i : Expr)
+    /-- `[a, b, c]` -/
+    | array (elems : List Expr)
+    /-- `[e; n]` -/
+    | repeatE (e n : Expr)
     | other (text : String)
 
   inductive Stmt
@@ -112,7 +139,8 @@ deriving Repr, BEq, DecidableEq, Inhabited
 structure FnDecl where
   /-- canonical name, the key in `fns` -/
   name : String
-  /-- file stem of the source file (`lib`, `shm_writer`, `main`) -/
+  /-- module name of the source file: its file stem (`lib`, `shm_writer`, `main`, `reader`, ...; `client_lib`,
+      `ffi_lib` for the `lib.rs` of clock-bound-client / clock-bound-ffi) -/
   module : String
   /-- self type of the enclosing `impl` (`""` for free functions) -/
   selfTy : String
